@@ -7,3 +7,8 @@ import Iggy.Props.C02
 #print axioms Iggy.Props.C02.first_last_next
 #print axioms Iggy.Props.C02.timestamp_poll
 #print axioms Iggy.Props.C02.identity_ops_invisible
+#print axioms Iggy.Props.C02.l1_poll_offset
+#print axioms Iggy.Props.C02.l1_poll_exact
+#print axioms Iggy.Props.C02.l1_poll_first_last_next
+#print axioms Iggy.Props.C02.l1_poll_timestamp_partial
+#print axioms Iggy.Props.C02.l1_identity_ops
